@@ -64,6 +64,10 @@ def parse_vwlb_data(fdata: bytes) -> List[Marker]:
         name_end = mnidx + struct.unpack(">h", fdata[(indx+2):(indx+4)])[0]
         logging.debug("name_end: %d", name_end)
         
+        # The names are stored one after another
+        if name_end < name_start:
+            raise ValueError("Marker name offsets are not in order")
+        
         name = fdata[name_start:name_end].decode(get_encoding())
         logging.debug("Name: %s", name)
         
